@@ -1,6 +1,7 @@
 package main
 
 import (
+	"bufio"
 	"bytes"
 	stdbzip2 "compress/bzip2"
 	"fmt"
@@ -20,6 +21,8 @@ func init() {
 	props["C04"] = runC04
 }
 
+var bzSinkTurn int
+
 func bzWrite(data []byte, level int, parts [][]byte) (sink []byte, err error, in, out int64) {
 	var bb bytes.Buffer
 	defer func() {
@@ -27,7 +30,24 @@ func bzWrite(data []byte, level int, parts [][]byte) (sink []byte, err error, in
 			sink, err = bb.Bytes(), fmt.Errorf("panic: %v", p)
 		}
 	}()
-	zw, err := bzip2.NewWriter(&bb, &bzip2.WriterConfig{Level: level})
+	// the sink's dynamic type varies (a Writer may treat a *bufio.Writer or a *bytes.Buffer specially)
+	var sinkW io.Writer = &bb
+	var bw *bufio.Writer
+	bzSinkTurn++
+	switch bzSinkTurn % 3 {
+	case 1:
+		bw = bufio.NewWriterSize(&bb, 16+bzSinkTurn%700)
+		sinkW = bw
+	case 2:
+		sinkW = struct{ io.Writer }{&bb}
+	}
+	defer func() {
+		if bw != nil {
+			bw.Flush()
+			sink = bb.Bytes()
+		}
+	}()
+	zw, err := bzip2.NewWriter(sinkW, &bzip2.WriterConfig{Level: level})
 	if err != nil {
 		return nil, err, 0, 0
 	}
